@@ -1,7 +1,7 @@
 PROP = dict(
     coq=["Pipe/StopHarness.vo"],
     legs=[
-        dict(driver="stop", quick=32, thorough=640, shard=16, noshrink=True,
+        dict(driver="stop", quick=36, thorough=720, shard=12, noshrink=True,
              monitors=["stop_returns_without_crash", "no_open_warc_file_left", "warc_files_hold_complete_records_only",
                        "all_stage_workers_returned"]),
     ],
